@@ -41,6 +41,7 @@ FIXED = [
  ("C20", "C20-sample-reservoir-index", "sample without replacement drew the reservoir index", "`gotree sample -n 1` on a 2-tree file always returned the second tree (400 of 400 seeds): reservoir index drawn with rand.Intn(totaltrees) instead of totaltrees+1"),
  ("C20", "C20-prune-reservoir-index", "prune --random drew the reservoir index", "`gotree prune --random 1` on 4 tips never selected the first tip (0 of 400 seeds): rand.Intn(i) instead of i+1"),
  ("C16", "C16-unrooted-minimum", "unrooted tree generators accepted sizes", "RandomUniform/Yule/CaterpillarBinaryTree(2,false) returned a one-branch tree together with the RerootFirst error although 2 was the stated minimum; `gotree generate balancedtree -d 1` printed Tip0:0.37Tip1; which gotree cannot read back"),
+ ("C03", "C03-outgroup-two-tips-panic", "RerootOutGroup dereferenced a nil pointer on a two-tip tree", "a history prune -> outgroup crashed: RerootOutGroup(false,false,\"a\") on (a:1,b:2); dereferenced a nil pointer (UnRoot leaves a tip as root)"),
  ("C08", "C08-sametree-one-directional", "Compare reported a strict contraction", "tree.Compare reported a strict contraction of the reference as identical: ref ((a,b),c,d), compared (a,b,c,d) gave Tree1=1, Tree2=0, Sametree=true"),
  ("C09", "C09-threshold-rounding", "Consensus kept bipartitions whose frequency equals", "Consensus kept a split present in 29 of 50 trees at cutoff 0.58 (int(0.58*50) = 28), although 29/50 is not greater than 0.58"),
  ("C09", "C09-rooted-double-count", "Consensus counted the root bipartition", "Consensus counted the root split of a rooted input twice: the single tree ((t1,t2),(t0,t3)) at cutoff 0.5 gave the star tree; [(t0,t3,(t1,t2)), ((t1,t2),(t0,t3))] at cutoff 1 lost the split present in every tree"),
